@@ -200,19 +200,22 @@ theorem C01_legacy_deposit_keeps_coin (env : Env) (k : PoolKey) (s s' : State) (
   split at h
   · cases h
   · cases h
-  · obtain ⟨coins, hf, h2⟩ := Outcome.bind_eq_ok h
-    cases h2
-    simp only [Outcome.foldlM', hl, if_true] at hf
-    split at hf
-    · next b1 hb1 =>
-      cases hf
-      obtain ⟨v, _, hb1⟩ := Outcome.bind_eq_ok hb1
-      cases hb1
-      simp only
-      rw [CoinMap.getCoin_insertCoin_ne _ _ _ (by unfold outCoinID; intro e; cases e)]
-      exact hc
-    · cases hf
-    · cases hf
+  · split at h
+    · cases h; exact hc
+    · obtain ⟨coins, hf, h2⟩ := Outcome.bind_eq_ok h
+      cases h2
+      -- (`split at h` above has already resolved `if legacyDeposit s` with `hl`)
+      simp only [Outcome.foldlM'] at hf
+      split at hf
+      · next b1 hb1 =>
+        cases hf
+        obtain ⟨v, _, hb1⟩ := Outcome.bind_eq_ok hb1
+        cases hb1
+        simp only
+        rw [CoinMap.getCoin_insertCoin_ne _ _ _ (by unfold outCoinID; intro e; cases e)]
+        exact hc
+      · cases hf
+      · cases hf
 
 end Mel
 
